@@ -44,6 +44,10 @@ META = {
 }
 
 ENCODINGS = ["utf-16-be", "utf-16-le", "utf-32-be", "utf-32-le"]
+# texts at the edges of encoding detection: a single character (fewer bytes than detection looks at), white space first,
+# characters of the planes beyond the first supplementary one; every variant of these is run in both tiers
+EDGE = ["7", "a", "~", "-", "ab", "- ", "  a: 1\n", " - 1\n", "\na: 1\n", "\r\na: 1\r\n", "\n\n- x\n", "k: \U00020bb7\U0002f800\U000e0100\U0010fffd\n",
+        "\U00020000: \U0003134f\n", "# \u00e9\nk: v\n"]
 
 
 def yaml_texts(rng, tier):
@@ -57,7 +61,7 @@ def yaml_texts(rng, tier):
             texts.append(t)
     extra = ["a: b\n", "- x\n- y\n", "k: \u00e9\u00e8\n", "e: \U0001F600\n", "s: \"\\u00e9\"\n", "a: [1, 2, 3]\n---\nb: 2\n",
              "x: \ufffd\n", "k: \ud7ff\ue000\n", "n: \U0010FFFF\n", "\u0416: 1\n", "a: '\u2028'\n", "q: \u00a0z\n"]
-    texts += extra
+    texts += extra + [t for t in EDGE if t[0].isascii()]
     try:
         import gen
         for _ in range(400 if tier == "thorough" else 60):
@@ -80,7 +84,7 @@ def run_api_oracle(outcome, tier, seed):
     reqs, meta = [], []
     for t in texts:
         u8 = t.encode("utf-8")
-        to = rng.choice(corpus.FORMATS) if tier == "quick" else None
+        to = rng.choice(corpus.FORMATS) if tier == "quick" and t not in EDGE else None
         targets = [to] if to else ["json", "msgpack", "yaml"]
         for to in targets:
             base = len(reqs)
@@ -93,7 +97,7 @@ def run_api_oracle(outcome, tier, seed):
                     data = (("\ufeff" if bom else "") + t).encode(enc)
                     for frm in ("yaml", None):
                         for mode in ("slice", "reader"):
-                            if tier == "quick" and rng.random() < 0.5:
+                            if tier == "quick" and t not in EDGE and rng.random() < 0.5:
                                 continue
                             sched = corpus.random_sched(rng)
                             reqs.append({"id": len(reqs), "to": to,
